@@ -130,6 +130,78 @@ CLAIMED = {
              "oracle's derived tolerance. Six known findings (a zero-derivative unit can be selected at a measure-zero/ulp-level end point).",
         technique="Lean 4 proof over a hand-written model + bit-exact differential correspondence + exact flow-integral oracle",
         ref="§5 C05"),
+    "C01": dict(
+        text="Lean 4 theorem global_balance_identity (any ordered field, any number of factors, all three lifting schemes): per unit, "
+             "probability inflow into the lifted state minus outflow equals -beta times the sum of the factor derivatives (the transport "
+             "term), assembled from C05's flow balance; thinned_rate. Tie to the code: the kernel correspondences of C02, C03, C04, C05, "
+             "C18 are re-run inside this check; run level: every exponential energy budget of real runs is drawn at the setting's beta. "
+             "Failing-history search: real runs of the small shipped systems (all algorithmic variants), observables recomputed from "
+             "the recorded sampled states, Kolmogorov-Smirnov against the repository's reference CDFs and between variants.",
+        note="PARTIAL by nature: the step from the balance identity to stationarity/ergodicity/convergence of histograms is not formalised "
+             "and cannot be decided by this technique (DESIGN §10); the statistical comparison is supporting evidence (a search for a "
+             "failing history with loose thresholds), never a proof.",
+        technique="Lean 4 proof of the balance identity + kernel correspondences + statistical failing-history search",
+        ref="§5 C01, §10"),
+    "C08": dict(
+        text="Lean 4 theorems over the activator model: under wiring clause (h) (every event that may change a unit's motion trashes every "
+             "populated interaction/cell-veto tagger) a stale candidate is always in the trash list, hence the in-state of every "
+             "committed interaction/cell-veto event is still on its trajectory, for every run; clause (h) follows from the decidable "
+             "WiringSound predicate, which is proved by decide for each of the 19 shipped .ini (generated from the current tree). "
+             "Run level: oracle on recorded real runs compares, at each interaction commit, the in-state as extracted when the candidate "
+             "was computed with the global state just before the commit (velocity identical, position on the same straight line).",
+        note="Footprint tables (which handler class may change motion/identity/cell) are hypotheses of the link theorem, tied to the code "
+             "only by the run-level oracle and the activator replay. Trusted: translator .ini -> Lean data (self-checked against the real "
+             "factory-built activator every run).",
+        technique="Lean 4 proof over a hand-written activator model + generated decidable obligations per .ini + run-level oracle/replay",
+        ref="§5 C09/C08, §4"),
+    "C09": dict(
+        text="Lean 4 theorems over a literal model of TagActivator bookkeeping: for all operation sequences running++notRunning is a "
+             "permutation of each pool, update returns only not-running handlers, trash returns exactly the running ones, error iff the "
+             "pool is exhausted; freshness invariant by induction over all runs whose steps satisfy StepOK: pending in-state tuples = "
+             "effective fresh yield (identifier multisets for interaction taggers, counts for the others); decidable WiringSound over "
+             "reachable activation states with footprint tables, proved by decide for all 19 shipped .ini regenerated from the tree; "
+             "link theorem WiringSound + FootprintsSound => StepOK. Correspondence: translator vs real factory-built activator; every "
+             "recorded leg of real runs replayed in the model (created handlers, order, running lists, flags, trash order); real "
+             "TagActivator with stub taggers on random wirings. Oracle: pending vs fresh yield after every commit of real runs.",
+        note="FootprintsSound is a hypothesis (tables written by hand, validated on runs). Pool sizes (clause i) are not derived: "
+             "exhaustion is an explicit error outcome in model and code and is reported by the oracle.",
+        technique="Lean 4 proof over a hand-written activator model + generated decidable obligations per .ini + trace replay + run-level oracle",
+        ref="§5 C09/C08, §4"),
+    "C11": dict(
+        text="Lean 4 theorems over a branch-for-branch model of SingleActiveCellOccupancy: the mirror invariant OccInv is established by "
+             "initialize and preserved by update for every new active unit (relevant or not, from occupants or surplus, same/other "
+             "cell), hence at every leg of every history satisfying the stated premise; update never raises; cell-boundary event (exact "
+             "arithmetic): positive time, unit stays in its cell before it, lands in the neighbour cell, snap agrees with the time slice. "
+             "Correspondence: real class on random configurations and update sequences (multiset compare per cell), real "
+             "CellBoundaryEventHandler bit-exact, replay of the call sequence of real cell runs; oracle: occupancy recomputed from "
+             "scratch from true positions after every update of real runs + history clause.",
+        note="The premise 'the active unit leaves its recorded cell only by a cell-boundary event' is a hypothesis of reach_inv (it needs "
+             "the scheduler/system model) and is measured by the run-level oracle; negative-direction boundary theorem is _partial "
+             "(one-float sliver between own cell_min and the neighbour's cell_max in exact arithmetic).",
+        technique="Lean 4 proof (invariant by induction) over a hand-written model + differential correspondence + run-level oracle",
+        ref="§5 C11"),
+    "C16": dict(
+        text="Lean 4 theorems: for any scalar/stepper: flat index is a bijection, the constructor enumerates identifiers, nearby/neighbour "
+             "specs as index arithmetic mod n (periodic) or clipped, nearby symmetric and reflexive; exact reading: partition (exactly "
+             "one cell contains p and position_to_cell returns it), relative/translate are (c-r) mod n and (c+o) mod n and mutually "
+             "inverse, nearby is translation invariant; rounding-abstract: extents are the maximal runs of scalars with digit i, "
+             "consecutive cells abut; kernel-evaluated binary64 counterexamples at the top of the box. Correspondence bit-exact against "
+             "CuboidCells/CuboidPeriodicCells (all cells with extents, all queries, error outcomes); oracle on the implementation.",
+        note="Known finding F2: int(p/side) = n for the top floats of the box for many cell counts (wrong cell or IndexError) and the last "
+             "cell_max is below nextafter(L,0). Extent hypothesis Geo is not derived from the float constructor in general (bridged by "
+             "part D and the oracle); loop termination (fuel) not proved.",
+        technique="Lean 4 proof over a hand-written model + bit-exact differential correspondence + oracle",
+        ref="§5 C16"),
+    "C20": dict(
+        text="Differential runs of the real MultiProcessMediator (fork) against the SingleProcessMediator with identical per-handler random "
+             "streams, for several core counts and seeded adversarial schedules (connection.wait replaced by a shim that returns a "
+             "seeded ordered sub-list of in-flight pipes): every leg compared bit for bit (handler, candidate times, out-state, global "
+             "state, trash list, samples); no worker alive after post_run; a run that does not finish is a deadlock. Lean model of the "
+             "stage machine and its refinement theorem: see theorem module (in progress).",
+        note="OS-level behaviour (pipes, events, lost wake-ups, reaping) is exercised, not modelled. Quantifier: configurations whose "
+             "pre-computable out-states draw no random numbers.",
+        technique="Lean 4 stage-machine model (in progress) + schedule-controlled differential runs against the single-process mediator",
+        ref="§5 C20"),
 }
 
 PENDING_REASON = "check not built yet in this session (work in progress; see DESIGN.md §9 for the order)"
